@@ -331,6 +331,50 @@ def run(chk):
             chk.violation({"entry": "v21.%s" % (CLASSES.get(typ, "CustomObservable")), "clause": "id_depends_on_earlier_operations", "case": "type=%s after=%s" % (typ, ",".join(x.split(":")[0] for x in ops))},
                           {"type": typ, "kwargs": c["kw"], "id": o["id"], "id_after": again, "operations_between": ops}, "S3")
     chk.stages["S3_histories"] = {"contents_recreated_after_other_operations": nhist}
+    # ---- S3c: the caller goes on using the containers it handed over (a template filled in a loop): every object keeps the identifier of the content it holds --
+    # serializing it, dropping the id and parsing gives the same id again -- and equal contents built from a fresh and from a re-used template get equal ids
+    import stix2
+    ED = "extension-definition--5e5c3a27-6b1f-4a2e-9f2a-1c2d3e4f5a6b"
+    ntmpl = 0
+    templates = [
+        ("file/unregistered_extension", stix2.v21.File, lambda: {"name": "n", "extensions": {ED: {"extension_type": "property-extension", "a": 1, "l": [1, 2], "d": {"k": "v"}}}},
+         [lambda kw: kw["extensions"][ED].__setitem__("a", 2), lambda kw: kw["extensions"][ED]["l"].append(3), lambda kw: kw["extensions"][ED]["d"].__setitem__("k", "w")]),
+        ("file/registered_extension", stix2.v21.File, lambda: {"name": "n", "extensions": {"ntfs-ext": {"sid": "s", "alternate_data_streams": [{"name": "a", "hashes": {"MD5": HASHVALS["MD5"]}}]}}},
+         [lambda kw: kw["extensions"]["ntfs-ext"].__setitem__("sid", "t"), lambda kw: kw["extensions"]["ntfs-ext"]["alternate_data_streams"][0].__setitem__("name", "b")]),
+        ("file/hashes", stix2.v21.File, lambda: {"name": "n", "hashes": {"SHA-256": HASHVALS["SHA-256"]}}, [lambda kw: kw["hashes"].__setitem__("MD5", HASHVALS["MD5"])]),
+        ("network-traffic/protocols+extension", stix2.v21.NetworkTraffic, lambda: {"protocols": ["tcp"], "src_ref": IP % 1, "extensions": {"http-request-ext": {"request_method": "get", "request_value": "/", "request_header": {"A": ["b"]}}}},
+         [lambda kw: kw["protocols"].append("http"), lambda kw: kw["extensions"]["http-request-ext"]["request_header"]["A"].append("c"), lambda kw: kw["extensions"]["http-request-ext"].__setitem__("request_value", "/x")]),
+        ("email-message/header_fields", stix2.v21.EmailMessage, lambda: {"is_multipart": False, "subject": "s", "from_ref": "email-addr--11111111-1111-5111-8111-111111111111"}, []),
+        ("windows-registry-key/values", stix2.v21.WindowsRegistryKey, lambda: {"key": "HKLM\\x", "values": [{"name": "a", "data": "1"}]}, [lambda kw: kw["values"][0].__setitem__("data", "2"), lambda kw: kw["values"].append({"name": "b"})]),
+    ]
+    for tname, cls, mk, muts in templates:
+        for mi, mut in enumerate(muts):
+            ntmpl += 1
+            chk.case(["template_reuse", tname, mi])
+            try:
+                kw = mk()
+                first = cls(**kw)
+                id1, text1 = first.id, first.serialize()
+                mut(kw)                                   # the caller changes ITS container
+                second = cls(**kw)                         # ... and builds the next object from it
+                fresh = cls(**copy.deepcopy(kw))
+                d1 = json.loads(first.serialize())
+                d1.pop("id")
+                reparsed = stix2.parse(d1, version="2.1", allow_custom=True)
+            except Exception as e:  # noqa
+                chk.notes["template_stage_skipped"] = chk.notes.get("template_stage_skipped", 0) + 1
+                continue
+            bad = []
+            if first.id != id1 or first.serialize() != text1:
+                bad.append("object_changed_with_the_callers_container")
+            if reparsed.id != first.id:
+                bad.append("id_not_that_of_the_content_the_object_holds")
+            if second.id != fresh.id:
+                bad.append("equal_contents_different_ids")
+            for b in bad:
+                chk.violation({"entry": "v21.%s" % cls.__name__, "clause": b, "case": "template=%s mutation=%d" % (tname, mi)},
+                              {"template": tname, "mutation": mi, "id_first": id1, "id_first_now": first.id, "id_reparsed": reparsed.id, "id_second": second.id, "id_fresh": fresh.id}, "S3c")
+    chk.stages["S3c_templates_reused_by_the_caller"] = {"cases": ntmpl}
     # across processes (hash randomisation varied)
     prog = ("import sys, json; sys.path.insert(0, %r); import stix2.v21 as v\n"
             "print(json.dumps([v.File(name='n', hashes={'SHA-256': %r, 'MD5': %r}).id, v.NetworkTraffic(protocols=['tcp'], src_ref=%r, extensions={'http-request-ext': {'request_method': 'get', 'request_value': '/', 'request_header': {'b': '1', 'a': '2'}}}).id, v.Software(name='n', vendor='v').id]))"
